@@ -120,16 +120,47 @@ def inject(kind, frame, tz, role="reporting"):
     return o
 
 
-def layout(frame, with_obs):
-    """give a (temperature[, observed]) frame the column layout of the data classes"""
+def layout(frame, with_obs, keep_dtype=False):
+    """give a (temperature[, observed]) frame the column layout of the data classes
+    (keep_dtype: leave the storage dtype of the two columns as it is instead of casting to float64)"""
     import opendsm.common.const as _const
     out = pd.DataFrame(index=frame.index)
     out["season"] = frame.index.month_name().map(_const.default_season_def)
     out["weekday_weekend"] = frame.index.day_name().map(_const.default_weekday_weekend_def)
-    out["temperature"] = frame["temperature"].astype(float)
+    out["temperature"] = frame["temperature"] if keep_dtype else frame["temperature"].astype(float)
     if with_obs:
-        out["observed"] = frame["observed"].astype(float)
+        out["observed"] = frame["observed"] if keep_dtype else frame["observed"].astype(float)
     return out
+
+
+DTYPES = ["float64", "float32", "Float64", "int64", "object"]
+
+
+def typed_column(values, dtype, index):
+    """a Series of the given storage dtype from encoded cells ("nan" | "inf" | "-inf" | [num, den]);
+    a missing cell is NaN (float64/float32), pd.NA (nullable Float64) or None (object);
+    int64 needs whole finite numbers - falls back to float64 otherwise.  -> (series, dtype actually used)"""
+    import numpy as np
+    vals = [dec(v) for v in values]
+    if dtype == "int64" and not all(v == v and abs(v) != float("inf") and float(v).is_integer() for v in vals):
+        dtype = "float64"
+    if dtype == "int64":
+        return pd.Series([int(v) for v in vals], index=index, dtype="int64"), dtype
+    if dtype == "Float64":
+        return pd.Series(pd.array([pd.NA if v != v else v for v in vals], dtype="Float64"), index=index), dtype
+    if dtype == "object":
+        return pd.Series([None if v != v else float(v) for v in vals], index=index, dtype=object), dtype
+    if dtype == "float32":
+        return pd.Series(np.array(vals, dtype=np.float32), index=index), dtype
+    return pd.Series(np.array(vals, dtype=float), index=index), "float64"
+
+
+def to_floats(series):
+    """any of the above storage dtypes -> numpy float64 array (None / pd.NA -> NaN)"""
+    import numpy as np
+    if str(series.dtype) in ("float64", "float32", "int64"):
+        return series.to_numpy(dtype=float)
+    return np.array([float("nan") if (v is None or v is pd.NA) else float(v) for v in series], dtype=float)
 
 
 def local_midnights(start, n, tz, gaps=None):
